@@ -221,3 +221,51 @@ Section FeedSum.
     rewrite IH; [|exact Hrest|apply Hinv; assumption]. rewrite Hq by assumption. lia.
   Qed.
 End FeedSum.
+
+(* ---- a quantity that grows by a per-event weight, along a sink that counts Matched events against
+   a limit: at the end it has grown by the weights of the consumed prefix ---- *)
+Section FeedLimitSum.
+  Context {T : Type}.
+  Variable step : sevent -> T -> option (T * reply).
+  Variable mc : T -> nat.
+  Variable limit : option nat.
+  Variable Inv : T -> Prop.
+  Variable OK : sevent -> Prop.
+  Variable q : T -> nat.
+  Variable wt : sevent -> nat.
+
+  Hypothesis Hm : forall m s, Inv s -> OK (SMatched m) -> limit_reached limit (mc s) = false ->
+    exists s', step (SMatched m) s = Some (s', reply_of (negb (limit_reached limit (mc s + 1)))) /\
+               mc s' = mc s + 1 /\ Inv s' /\ q s' = q s + wt (SMatched m).
+  Hypothesis Ho : forall e s, is_matched e = false -> Inv s -> OK e -> limit_reached limit (mc s) = false ->
+    exists s', step e s = Some (s', Go) /\ mc s' = mc s /\ Inv s' /\ q s' = q s + wt e.
+
+  Lemma feed_limit_sum : forall evs k s, Forall OK evs -> Inv s -> limit_reached limit (mc s) = false ->
+    exists s' rp k', feed step evs k s = Some (s', rp, k') /\ rp <> Fail /\ Inv s' /\
+      q s' = q s + list_sum (map wt (consumed_from limit (mc s) evs)).
+  Proof.
+    induction evs as [|e evs IH]; intros k s Hok Hinv Hr; cbn [feed consumed_from].
+    - exists s, Go, k. repeat split; [discriminate|exact Hinv|cbn; lia].
+    - inversion Hok as [|? ? He Hrest]; subst.
+      destruct e as [m|c| |off]; cbn [is_matched].
+      + destruct (Hm m s Hinv He Hr) as (s' & -> & Hmc & Hinv' & Hq).
+        destruct (limit_reached limit (mc s + 1)) eqn:Er'; cbn [negb reply_of].
+        * exists s', Halt, k. repeat split; [discriminate|exact Hinv'|]. rewrite Hq. cbn. lia.
+        * destruct (IH (S k) s' Hrest Hinv') as (s2 & rp & k2 & -> & Hrp & Hinv2 & Hq2); [now rewrite Hmc|].
+          exists s2, rp, k2. repeat split; [exact Hrp|exact Hinv2|]. rewrite Hq2, Hq, Hmc.
+          change (list_sum (map wt (SMatched m :: ?l))) with (wt (SMatched m) + list_sum (map wt l)). cbn [map list_sum]. 
+          change (list_sum (wt (SMatched m) :: ?l)) with (wt (SMatched m) + list_sum l). lia.
+      + destruct (Ho (SContext c) s eq_refl Hinv He Hr) as (s' & -> & Hmc & Hinv' & Hq).
+        destruct (IH (S k) s' Hrest Hinv') as (s2 & rp & k2 & -> & Hrp & Hinv2 & Hq2); [now rewrite Hmc|].
+        exists s2, rp, k2. repeat split; [exact Hrp|exact Hinv2|]. rewrite Hq2, Hq, Hmc. cbn [map].
+        change (list_sum (wt (SContext c) :: ?l)) with (wt (SContext c) + list_sum l). lia.
+      + destruct (Ho SBreak s eq_refl Hinv He Hr) as (s' & -> & Hmc & Hinv' & Hq).
+        destruct (IH (S k) s' Hrest Hinv') as (s2 & rp & k2 & -> & Hrp & Hinv2 & Hq2); [now rewrite Hmc|].
+        exists s2, rp, k2. repeat split; [exact Hrp|exact Hinv2|]. rewrite Hq2, Hq, Hmc. cbn [map].
+        change (list_sum (wt SBreak :: ?l)) with (wt SBreak + list_sum l). lia.
+      + destruct (Ho (SBinary off) s eq_refl Hinv He Hr) as (s' & -> & Hmc & Hinv' & Hq).
+        destruct (IH (S k) s' Hrest Hinv') as (s2 & rp & k2 & -> & Hrp & Hinv2 & Hq2); [now rewrite Hmc|].
+        exists s2, rp, k2. repeat split; [exact Hrp|exact Hinv2|]. rewrite Hq2, Hq, Hmc. cbn [map].
+        change (list_sum (wt (SBinary off) :: ?l)) with (wt (SBinary off) + list_sum l). lia.
+  Qed.
+End FeedLimitSum.
